@@ -15,7 +15,7 @@ import (
 	"verifharness/internal/val"
 )
 
-var c16Floor = []string{"tpl.echo", "tpl.where", "tpl.in", "tpl.between", "tpl.func", "tpl.limit", "tpl.adjacent", "tpl.repeat", "tpl.protected.single", "tpl.protected.double", "tpl.protected.backtick", "tpl.protected.comment", "tpl.pg-ident", "tpl.idiomatic-array", "comment.tab", "comment.backslash-eol", "arg.float.huge", "err.missing.huge", "comment.hash", "tpl.badutf8", "tpl.protected.backslash", "err.nan",
+var c16Floor = []string{"tpl.echo", "tpl.where", "tpl.in", "tpl.between", "tpl.func", "tpl.limit", "tpl.adjacent", "tpl.repeat", "tpl.protected.single", "tpl.protected.double", "tpl.protected.backtick", "tpl.protected.backtick-backslash", "tpl.protected.comment", "tpl.pg-ident", "tpl.idiomatic-array", "comment.tab", "comment.backslash-eol", "arg.float.huge", "err.missing.huge", "comment.hash", "tpl.badutf8", "tpl.protected.backslash", "err.nan",
 	"arg.string", "arg.int", "arg.negint", "arg.float", "arg.bool", "arg.nil", "str.quote", "str.backslash", "str.comment", "str.control", "str.keyword", "str.multibyte", "err.missing", "err.unused", "err.dollar0", "prepared", "concurrent"}
 
 func init() {
@@ -257,6 +257,8 @@ func c16Run(c *fw.Case) {
 		kind, variant = "tpl.protected.comment", 3
 	case "tpl.protected.backslash":
 		kind, variant = "tpl.protected.single", 0
+	case "tpl.protected.backtick-backslash":
+		kind, variant = "tpl.protected.backtick", 7
 	}
 	if force == "concurrent" {
 		force = ""
@@ -334,7 +336,15 @@ func c16Run(c *fw.Case) {
 	case "tpl.protected.double":
 		t.pieces, t.slots = []string{"SELECT \"$3 $1\" AS a, ", " AS v FROM dual"}, []int{A("")}
 	case "tpl.protected.backtick":
-		t.pieces, t.slots = []string{"SELECT ", " AS `v$2` FROM dual"}, []int{A("")}
+		if variant == 7 || variant < 0 && c.Chance(0.4) {
+			// a back-ticked identifier that ends in a backslash (the parser
+			// reads no escapes there), a placeholder after it and `$n` inside a later one
+			t.pieces, t.slots = []string{"SELECT ", " AS `dir\\`, ", " AS `w$2` FROM dual"}, []int{A(""), A("")}
+			t.note = "backtick-backslash"
+			feats = append(feats, "tpl.protected.backtick-backslash")
+		} else {
+			t.pieces, t.slots = []string{"SELECT ", " AS `v$2` FROM dual"}, []int{A("")}
+		}
 	case "tpl.protected.comment":
 		t.pieces, t.slots = []string{"SELECT /* $2 ' */ ", " AS v FROM dual -- $3 '"}, []int{A("")}
 		v := c.Intn(7)
@@ -509,6 +519,9 @@ func c16Run(c *fw.Case) {
 			expect["a"], expect["v"] = "$3 $1", exact(t.args[0])
 		case "tpl.protected.backtick":
 			expect["v$2"] = exact(t.args[0])
+			if t.note == "backtick-backslash" {
+				expect = map[string]any{"dir\\": exact(t.args[0]), "w$2": exact(t.args[1])}
+			}
 		}
 		det["expected"] = val.Show(expect)
 		if !val.Equal(row, expect) {
